@@ -423,6 +423,11 @@ from pv import names  # noqa: E402
 SUBS.append(names.sub(ID))
 RULE += names.RULE
 
+# inputs handed in through neutral petl views (shared sub-check, see pv/upstream.py)
+from pv import upstream  # noqa: E402
+SUBS.append(upstream.sub(ID))
+RULE += upstream.RULE
+
 # the method interface reaches the same functions (shared exhaustive sub-check, see pv/fluent.py)
 from pv import fluent  # noqa: E402
 SUBS.append(fluent.sub(ID))
